@@ -9,6 +9,7 @@ import (
 	"os"
 	"os/exec"
 	"path/filepath"
+	"sort"
 	"strings"
 	"sync"
 	"time"
@@ -157,7 +158,7 @@ func runMassiveMkdir(c Case) []Diff {
 	cwdCheck := guardWorkDir(c)
 	opts := append([]gtree.Option{gtree.WithTargetDir(target), gtree.WithFileExtensions(c.Exts), gtree.WithMassive(context.Background())}, strayOpts(c)...)
 	if c.Dry {
-		opts = append(opts, gtree.WithDryRun())
+		opts = dryOpts(c, []gtree.Option{gtree.WithTargetDir(target), gtree.WithFileExtensions(c.Exts), gtree.WithMassive(context.Background())})
 	}
 	// simple-mode verdict on a twin jail (the reference)
 	twin := newJail()
@@ -169,21 +170,33 @@ func runMassiveMkdir(c Case) []Diff {
 	}
 	var err, serr error
 	var written bytes.Buffer
-	run := func() {
-		if c.FromRoot {
-			err = gtree.MkdirFromRoot(buildRoot(parseTreeEnc(c.Tree)), opts...)
-			serr = gtree.MkdirFromRoot(buildRoot(parseTreeEnc(c.Tree)), sopts...)
-		} else {
-			err = gtree.MkdirFromMarkdown(bytes.NewReader(c.doc()), opts...)
-			serr = gtree.MkdirFromMarkdown(bytes.NewReader(c.doc()), sopts...)
+	mkdir := func(o []gtree.Option) error {
+		switch {
+		case c.FromRoot && c.Alias:
+			return gtree.MkdirProgrammably(buildRoot(parseTreeEnc(c.Tree)), o...)
+		case c.FromRoot:
+			return gtree.MkdirFromRoot(buildRoot(parseTreeEnc(c.Tree)), o...)
+		case c.Alias:
+			return gtree.Mkdir(bytes.NewReader(c.doc()), o...)
 		}
+		return gtree.MkdirFromMarkdown(bytes.NewReader(c.doc()), o...)
 	}
+	run := func() {
+		err = mkdir(opts)
+		serr = mkdir(sopts)
+	}
+	var mreport, sreport []byte
 	if c.Dry {
 		colorOutMu.Lock()
 		old := colorOutput()
-		setColorOutput(&lockedBuf{})
-		run()
+		mb, sb := &lockedBuf{}, &lockedBuf{}
+		setColorOutput(mb)
+		err = mkdir(opts)
 		time.Sleep(5 * time.Millisecond)
+		mreport = mb.finish()
+		setColorOutput(sb)
+		serr = mkdir(sopts)
+		sreport = sb.finish()
 		setColorOutput(old)
 		colorOutMu.Unlock()
 	} else {
@@ -196,6 +209,15 @@ func runMassiveMkdir(c Case) []Diff {
 	nameErr := func(e error) bool { k := errClass(classify(e)); return k == "invalidname" || k == "invalidpath" }
 	if nameErr(serr) != nameErr(err) {
 		d = append(d, Diff{What: "massive mkdir and simple mkdir disagree about the names", Real: "massive: " + classify(err), Model: "simple: " + classify(serr)})
+	}
+	if c.Dry && err == nil && serr == nil {
+		// the report of the massive dry run (with whatever stray option) is the simple dry run's, root by root
+		a, b := splitLines(mreport), splitLines(sreport)
+		sort.Strings(a)
+		sort.Strings(b)
+		if strings.Join(a, "") != strings.Join(b, "") {
+			d = append(d, Diff{What: "massive dry-run Mkdir" + ifs(c.Stray != "", " (with the "+c.Stray+" encoding option "+ifs(c.StrayLast, "after", "before")+" WithDryRun)", "") + " reports something else than the simple dry run (as multisets of lines)", Real: hx(mreport), Model: hx(sreport)})
+		}
 	}
 	oneRoot := bytes.Count(c.doc(), []byte("\n- ")) == 0 && !bytes.Contains(c.doc(), []byte("\n# "))
 	if oneRoot && !c.FromRoot && errClass(classify(err)) != errClass(classify(serr)) {
